@@ -25,7 +25,7 @@ from vf.core import Violation, ok
 
 PID = "C19"
 LEVEL = "exploration"
-CASE_TIMEOUT = 30
+CASE_TIMEOUT = 6  # cases take milliseconds; a coroutine spinning without yielding can only be stopped by the watchdog
 HANG_IS_VIOLATION = True  # "every concurrent request completes"
 MAX_STEPS = 200_000  # event-loop iterations per case; the largest seen on the unchanged tree is < 3000
 RULE = (
@@ -62,7 +62,7 @@ WALL = {"quick": 150, "thorough": 1500}
 
 
 def budget(tier):
-    return 6000 if tier == "quick" else 80000
+    return 12000 if tier == "quick" else 250000
 
 
 # ---------------------------------------------------------------------------------------------
@@ -293,6 +293,7 @@ def prop(case):
         f"batching={case['use_batching']} max_batch_size={case['max_batch_size']} hold={case['max_batch_hold']} "
         f"cache={cache and cache['store'] + '/' + cache['key']} latencies={case['latencies']}"
     )
+    interrupted = True
     try:
         index = BasicEmbeddingsIndex(
             embedding_model="fake",
@@ -303,8 +304,11 @@ def prop(case):
             max_batch_hold=case["max_batch_hold"],
         )
         try:
-            loop.run_until_complete(_main(index, case, out, flags))
+            with loop.alarm_relay():
+                loop.run_until_complete(_main(index, case, out, flags))
+            interrupted = False
         except vclock.VirtualTimeError as e:
+            interrupted = False
             if flags["stage"] == "setup":
                 raise  # sequential add_items/build cannot deadlock unless the harness is wrong
             missing = [i for i in range(len(case["requests"])) if i not in out]
@@ -348,8 +352,13 @@ def prop(case):
                         raise Violation("search-rank", f"{what}: items {indexed!r}; top results {val[:3]!r}, expected {q!r} first")
         if flags["left"]:
             raise Violation("pending-task", f"{cfg}: after all requests completed and timers expired still pending: {flags['left'][:3]}")
+    except Exception:
+        interrupted = False
+        raise
     finally:
-        loop.shutdown()
+        # after the watchdog (a BaseException) cancelled tasks must not be run: a task spinning without
+        # yielding would hang the clean-up
+        loop.shutdown(run_cancelled=not interrupted)
         asyncio.set_event_loop(None)
         providers._embedding_model_cache.pop(f"{ENGINE}-fake", None)
         if tmp:
